@@ -36,6 +36,9 @@ func variants() []Variant {
 		}
 	}
 	creates = append(creates,
+		// spellings of an aggregate function that are not its name: a feed must either be refused or aggregate
+		FeedSpec{Name: "f1", Creator: "C", Agg: "MAX", Hist: 1, Thr: 1, Providers: []string{"P1", "P2"}},
+		FeedSpec{Name: "f1", Creator: "C", Agg: " avg", Hist: 1, Thr: 1, Providers: []string{"P1", "P2"}},
 		FeedSpec{Name: "f1", Creator: "X", Agg: "min", Hist: 1, Thr: 1, Providers: []string{"P3"}},
 		FeedSpec{Name: "f11", Creator: "X", Agg: "max", Hist: 1, Thr: 1, Providers: []string{"P3"}},
 	)
